@@ -89,4 +89,31 @@ def cases(tier, rng=None):
                 C = {LY + '::LayoutHandler.' + meth: dict(params=params, requires=req, ensures=['coll_trace() == ' + exp], modifies=[])}
                 out.append(dict(label='%s %s->%s grid pattern %s' % (meth, a, b, pat), struct=None, key=LY + '::LayoutHandler.' + meth,
                                 contracts=C))
+    # LayoutSwapper single steps: the gather branch issues exactly one Allgather, on the communicator of the source group that the
+    # destination group lacks; scatter and same-distribution steps issue none - a function of the two groups only
+    def slay(name, order):
+        R = len(order)
+        return {'__class__': LY + '::Layout', '_name': ('const', name), '_dims_order': ('const', tuple(order)), '_ndims': ('const', R),
+                '_shape': 'opaque', '_size': 'opaque', '_max_shape': 'opaque', '_nprocs': 'opaque', '_mpi_lengths': 'opaque',
+                '_mpi_starts': 'opaque', '_starts': 'opaque', '_ends': 'opaque'}
+
+    def hnd(comms):
+        return {'__class__': LY + '::LayoutHandler', '_nDims': ('const', len(comms)), '_subcomms': ('list', ['comm:' + c for c in comms])}
+    for (oa, ob, ca, cb) in (((0, 1, 2), (0, 2, 1), ['c0', 'c1'], ['c0']), ((0, 1, 2), (1, 0, 2), ['c0', 'c1'], ['c1']),
+                             ((1, 0, 2), (2, 1, 0), ['c0'], []), ((0, 2, 1), (0, 1, 2), ['c0'], ['c0', 'c1']),
+                             ((0, 1, 2), (0, 2, 1), ['c0'], ['c0'])):
+        if len(ca) > len(cb):
+            lost = [k for k, c in enumerate(ca) if c not in cb][0]
+            exp = '[("%s", "Allgather")]' % ca[lost]
+        else:
+            exp = '[]'
+        for meth, extra in (('_transpose', {}), ('_transpose_source_intact', {'buf': 'opaque'})):
+            sw = {'__class__': LY + '::LayoutSwapper', '_managers': ('list', [hnd(ca), hnd(cb)]),
+                  '_handlers': {'__dict__': {'src': ('const', 0), 'dst': ('const', 1)}}}
+            params = {'self': sw, 'source': 'opaque', 'dest': 'opaque', 'layout_source': slay('src', oa), 'layout_dest': slay('dst', ob)}
+            params.update(extra)
+            C = {LY + '::LayoutSwapper.' + meth: dict(params=params, requires=[], ensures=['coll_trace() == ' + exp], modifies=[])}
+            out.append(dict(label='swapper %s %s->%s %s->%s' % (meth, ''.join(map(str, oa)), ''.join(map(str, ob)), '+'.join(ca) or 'none',
+                                                            '+'.join(cb) or 'none'),
+                            struct=None, key=LY + '::LayoutSwapper.' + meth, contracts=C))
     return out
